@@ -639,15 +639,25 @@ fn base_model(rng: &mut Rng) -> Model {
     m
 }
 
-fn mutate(rng: &mut Rng, class: &str, m: &mut Model) {
+/// Apply the violation of `class` to the base model. `v` enumerates the places the constraint
+/// applies to (each listener protocol, each cluster protocol — http, tcp, tcp fronting a UDP
+/// listener —, the HTTP and the HTTPS frontend): consecutive cases of one class walk through
+/// all of them. Returns a label naming the place, for the evidence.
+fn mutate(rng: &mut Rng, class: &str, v: usize, m: &mut Model) -> String {
     let spare: SocketAddr = "127.200.0.1:4999".parse().unwrap();
+    const LNAME: [&str; 4] = ["http_listener", "https_listener", "tcp_listener", "udp_listener"];
+    const CNAME: [&str; 3] = ["http_cluster", "tcp_cluster", "udp_cluster"];
+    const FNAME: [&str; 2] = ["http_frontend", "https_frontend"];
+    let mut label = String::new();
     match class {
         "unknown_listener_protocol" => {
-            let i = rng.usize_below(4);
+            let i = v % 4;
+            label = LNAME[i].to_owned();
             m.listeners[i].proto_text = Some((*rng.pick(&["quic", "HTTP", "h2", "ftp", ""])).to_owned());
         }
         "unknown_cluster_protocol" => {
-            let i = rng.usize_below(3);
+            let i = v % 3;
+            label = CNAME[i].to_owned();
             m.clusters[i].proto_text = (*rng.pick(&["https", "udp", "HTTP", "grpc"])).to_owned();
         }
         "h2_listener_buffer_size_too_small" => {
@@ -660,23 +670,25 @@ fn mutate(rng: &mut Rng, class: &str, m: &mut Model) {
         }
         "hsts_on_http_listener" => {
             m.listeners[0].hsts = Some(Hsts { enabled: Some(true), ..Default::default() });
-            m.listeners[0].hsts_syntax = if rng.bool() { Syntax::Table } else { Syntax::Inline };
+            m.listeners[0].hsts_syntax = if v % 2 == 0 { Syntax::Table } else { Syntax::Inline };
         }
         "hsts_on_http_frontend" => {
             m.clusters[0].frontends[0].hsts = Some(Hsts { enabled: Some(true), max_age: Some(31_536_000), ..Default::default() });
-            m.clusters[0].fronts_inline = rng.bool();
+            m.clusters[0].fronts_inline = v % 2 == 0;
         }
         "hsts_without_enabled_listener" => {
             m.listeners[1].hsts = Some(Hsts { max_age: Some(31_536_000), include_subdomains: Some(true), ..Default::default() });
-            m.listeners[1].hsts_syntax = if rng.bool() { Syntax::Table } else { Syntax::Inline };
+            m.listeners[1].hsts_syntax = if v % 2 == 0 { Syntax::Table } else { Syntax::Inline };
         }
         "hsts_without_enabled_frontend" => {
             m.clusters[0].frontends[1].cert = Some(0);
             m.clusters[0].frontends[1].hsts = Some(Hsts { max_age: Some(600), ..Default::default() });
+            m.clusters[0].fronts_inline = v % 2 == 0;
         }
         "duplicate_listener_address" => {
-            let i = rng.usize_below(4);
-            let j = rng.usize_below(4);
+            // every (protocol of the first, protocol of the second) pair
+            let (i, j) = (v % 4, (v / 4) % 4);
+            label = format!("{}_then_{}", LNAME[i], LNAME[j]);
             let mut l = m.listeners[j].clone();
             l.addr = m.listeners[i].addr;
             m.listeners.push(l);
@@ -690,25 +702,39 @@ fn mutate(rng: &mut Rng, class: &str, m: &mut Model) {
         "certificate_on_http_listener_frontend" => {
             m.clusters[0].frontends[0].cert = Some(rng.usize_below(CERT_FILES.len()));
         }
-        "http_frontend_on_tcp_listener" => m.clusters[0].frontends[0].addr = m.listeners[2].addr,
-        "http_frontend_on_udp_listener" => m.clusters[0].frontends[0].addr = m.listeners[3].addr,
-        "tcp_frontend_on_http_listener" => {
-            let i = rng.usize_below(2);
-            m.clusters[1].frontends[0].addr = m.listeners[i].addr;
+        "http_frontend_on_tcp_listener" | "http_frontend_on_udp_listener" => {
+            let fi = v % 2;
+            label = FNAME[fi].to_owned();
+            m.clusters[0].frontends[fi].addr = m.listeners[if class.ends_with("tcp_listener") { 2 } else { 3 }].addr;
         }
-        "tcp_frontend_with_hostname" => m.clusters[1].frontends[0].hostname = Some("x.example.com".to_owned()),
-        "tcp_frontend_with_path" => m.clusters[1].frontends[0].path = Some("/api".to_owned()),
-        "tcp_frontend_with_certificate" => m.clusters[1].frontends[0].cert = Some(0),
+        "tcp_frontend_on_http_listener" => {
+            let (ci, li) = (1 + v % 2, (v / 2) % 2);
+            label = format!("{}_on_{}", CNAME[ci], LNAME[li]);
+            m.clusters[ci].frontends[0].addr = m.listeners[li].addr;
+        }
+        "tcp_frontend_with_hostname" | "tcp_frontend_with_path" | "tcp_frontend_with_certificate" => {
+            let ci = 1 + v % 2;
+            label = CNAME[ci].to_owned();
+            let f = &mut m.clusters[ci].frontends[0];
+            match class {
+                "tcp_frontend_with_hostname" => f.hostname = Some("x.example.com".to_owned()),
+                "tcp_frontend_with_path" => f.path = Some("/api".to_owned()),
+                _ => f.cert = Some(0),
+            }
+        }
         "http_frontend_without_hostname" => {
-            let i = rng.usize_below(2);
-            m.clusters[0].frontends[i].hostname = None;
+            let fi = v % 2;
+            label = FNAME[fi].to_owned();
+            m.clusters[0].frontends[fi].hostname = None;
         }
         "listener_without_protocol" => {
-            let i = rng.usize_below(4);
+            let i = v % 4;
+            label = LNAME[i].to_owned();
             m.listeners[i].proto_text = None;
         }
         "public_address_with_expect_proxy" => {
-            let i = rng.usize_below(3);
+            let i = v % 3;
+            label = LNAME[i].to_owned();
             m.listeners[i].opts.insert("public_address", Tv::S("203.0.113.7:80".to_owned()));
             m.listeners[i].opts.insert("expect_proxy", Tv::B(true));
         }
@@ -717,13 +743,13 @@ fn mutate(rng: &mut Rng, class: &str, m: &mut Model) {
             l.opts.insert("expect_proxy", Tv::B(true));
             m.listeners.push(l);
             m.clusters[1].frontends.push(Frontend::new(spare));
-            if rng.bool() {
+            if v % 2 == 1 {
                 m.clusters[1].frontends.swap(0, 1);
             }
         }
         "disable_http11_with_http11_alpn" => {
             m.listeners[1].opts.insert("disable_http11", Tv::B(true));
-            if rng.bool() {
+            if v % 2 == 0 {
                 m.listeners[1].opts.insert("alpn_protocols", Tv::L(vec!["h2".to_owned(), "http/1.1".to_owned()]));
             } else {
                 m.listeners[1].opts.remove("alpn_protocols");
@@ -734,32 +760,38 @@ fn mutate(rng: &mut Rng, class: &str, m: &mut Model) {
             m.listeners[3].opts.insert("expect_proxy", Tv::B(true));
         }
         "invalid_sozu_id_header" => {
-            let i = rng.usize_below(2);
-            m.listeners[i].opts.insert("sozu_id_header", Tv::S((*rng.pick(&["a b", "", "X:Id", "X-Id\r\nEvil: 1"])).to_owned()));
+            let i = v % 2;
+            label = LNAME[i].to_owned();
+            let bad = ["a b", "", "X:Id", "X-Id\r\nEvil: 1"];
+            m.listeners[i].opts.insert("sozu_id_header", Tv::S(bad[(v / 2) % bad.len()].to_owned()));
         }
-        "invalid_redirect_policy" => {
-            m.clusters[0].frontends[0].opts.insert("redirect", Tv::S("teapot".to_owned()));
-        }
-        "invalid_redirect_scheme" => {
-            m.clusters[0].frontends[0].opts.insert("redirect_scheme", Tv::S("use-gopher".to_owned()));
-        }
-        "invalid_header_position" => {
-            m.clusters[0].frontends[0].headers = vec![("sideways".to_owned(), "X-A".to_owned(), "b".to_owned())];
-        }
-        "header_value_with_crlf" => {
-            m.clusters[0].frontends[0].headers = vec![("request".to_owned(), "X-A".to_owned(), "b\r\nEvil: 1".to_owned())];
+        "invalid_redirect_policy" | "invalid_redirect_scheme" | "invalid_header_position" | "header_value_with_crlf" => {
+            let fi = v % 2;
+            label = FNAME[fi].to_owned();
+            let f = &mut m.clusters[0].frontends[fi];
+            match class {
+                "invalid_redirect_policy" => {
+                    f.opts.insert("redirect", Tv::S("teapot".to_owned()));
+                }
+                "invalid_redirect_scheme" => {
+                    f.opts.insert("redirect_scheme", Tv::S("use-gopher".to_owned()));
+                }
+                "invalid_header_position" => f.headers = vec![("sideways".to_owned(), "X-A".to_owned(), "b".to_owned())],
+                _ => f.headers = vec![("request".to_owned(), "X-A".to_owned(), "b\r\nEvil: 1".to_owned())],
+            }
+            m.clusters[0].fronts_inline = (v / 2) % 2 == 0;
         }
         "automatic_state_save_without_saved_state" => {
             m.global.insert("automatic_state_save", Tv::B(true));
         }
         "frontend_certificate_file_missing" => {
-            m.clusters[0].frontends[1].cert = Some(0);
-            m.clusters[0].frontends[1].opts.insert("certificate", Tv::S("/nonexistent/c20/cert.pem".to_owned()));
             m.clusters[0].frontends[1].cert = None;
+            m.clusters[0].frontends[1].opts.insert("certificate", Tv::S("/nonexistent/c20/cert.pem".to_owned()));
             m.clusters[0].frontends[1].opts.insert("key", Tv::S(CERT_FILES[0].1.to_owned()));
         }
         "listener_answer_file_missing" => {
-            let i = rng.usize_below(2);
+            let i = v % 2;
+            label = LNAME[i].to_owned();
             m.listeners[i].legacy_answers = vec![(404, "/nonexistent/c20/404.http".to_owned(), String::new())];
         }
         "frontend_without_listener_http" => {
@@ -770,27 +802,54 @@ fn mutate(rng: &mut Rng, class: &str, m: &mut Model) {
             m.clusters[0].frontends[1].cert = Some(rng.usize_below(CERT_FILES.len()));
         }
         "frontend_without_listener_tcp" => {
-            m.clusters[1].frontends[0].addr = spare;
+            let ci = 1 + v % 2;
+            label = CNAME[ci].to_owned();
+            m.clusters[ci].frontends[0].addr = spare;
         }
         "health_check_uri_without_slash" => {
-            m.clusters[0].health_check = Some(("health".to_owned(), Opts::new()));
+            // a health_check block is cluster-level grammar: every cluster protocol
+            let ci = v % 3;
+            label = CNAME[ci].to_owned();
+            let uri = ["health", "", "healthz/ready", "http://x/health"][(v / 3) % 4];
+            m.clusters[ci].health_check = Some((uri.to_owned(), Opts::new()));
+            m.clusters[ci].sub_inline = (v / 12) % 2 == 0;
         }
         "health_check_zero_interval" => {
+            let ci = v % 3;
+            label = CNAME[ci].to_owned();
             let mut o = Opts::new();
-            o.insert(*rng.pick(&["interval", "timeout", "healthy_threshold", "unhealthy_threshold"]), Tv::I(0));
-            m.clusters[0].health_check = Some(("/health".to_owned(), o));
+            o.insert(["interval", "timeout", "healthy_threshold", "unhealthy_threshold"][(v / 3) % 4], Tv::I(0));
+            m.clusters[ci].health_check = Some(("/health".to_owned(), o));
+            m.clusters[ci].sub_inline = (v / 12) % 2 == 0;
         }
         "duplicate_route_two_clusters" => {
-            let mut c = Cluster::new("web2".to_owned(), true);
-            let i = rng.usize_below(2);
-            c.frontends.push(m.clusters[0].frontends[i].clone());
+            // the same frontend declared by a second cluster of the same protocol
+            let k = v % 4;
+            label = ["http_frontend", "https_frontend", "tcp_frontend", "udp_frontend"][k].to_owned();
+            let (src, fi, http) = match k {
+                0 => (0, 0, true),
+                1 => (0, 1, true),
+                2 => (1, 0, false),
+                _ => (2, 0, false),
+            };
+            let mut c = Cluster::new("second".to_owned(), http);
+            c.frontends.push(m.clusters[src].frontends[fi].clone());
             m.clusters.push(c);
         }
         "duplicate_route_same_cluster" => {
-            let i = rng.usize_below(2);
-            let mut f = m.clusters[0].frontends[i].clone();
-            f.position = Some(rng.below(3) as u8);
-            m.clusters[0].frontends.push(f);
+            let k = v % 4;
+            label = ["http_frontend", "https_frontend", "tcp_frontend", "udp_frontend"][k].to_owned();
+            let (ci, fi) = match k {
+                0 => (0, 0),
+                1 => (0, 1),
+                2 => (1, 0),
+                _ => (2, 0),
+            };
+            let mut f = m.clusters[ci].frontends[fi].clone();
+            if k < 2 {
+                f.position = Some(rng.below(3) as u8);
+            }
+            m.clusters[ci].frontends.push(f);
         }
         "hsts_on_https_frontend_using_listener_certificate" => {
             m.listeners[1].cert = Some(1);
@@ -807,6 +866,10 @@ fn mutate(rng: &mut Rng, class: &str, m: &mut Model) {
         }
         _ => {}
     }
+    if label.is_empty() {
+        label = "only".to_owned();
+    }
+    label
 }
 
 fn neighbour_case(run: &Run, rep: &mut Report) {
@@ -825,8 +888,10 @@ fn neighbour_case(run: &Run, rep: &mut Report) {
             Loaded::Aborted => {}
         }
     }
-    mutate(&mut rng, class, &mut m);
+    let variant = run.case as usize / CLASSES.len();
+    let place = mutate(&mut rng, class, variant, &mut m);
     rep.obs(&format!("neighbour_tried.{class}"), 1);
+    rep.obs(&format!("neighbour_place.{class}.{place}"), 1);
     let judge = demand == Demand::ErrOrComplete && !class.ends_with("_file_missing");
     let (loaded, toml) = pipeline(run, rep, &mut rng, &m, Some(class), true, judge);
     match (&loaded, demand) {
@@ -979,6 +1044,33 @@ pub fn run(ctx: &Ctx) -> Report {
     for (c, _) in CLASSES {
         rep.require(&format!("neighbour_tried.{c}"));
     }
+    // protocol-independent constraints are instantiated on every protocol they apply to
+    for c in ["health_check_uri_without_slash", "health_check_zero_interval", "unknown_cluster_protocol"] {
+        for p in ["http_cluster", "tcp_cluster", "udp_cluster"] {
+            rep.require(&format!("neighbour_place.{c}.{p}"));
+        }
+    }
+    for c in ["unknown_listener_protocol", "listener_without_protocol"] {
+        for p in ["http_listener", "https_listener", "tcp_listener", "udp_listener"] {
+            rep.require(&format!("neighbour_place.{c}.{p}"));
+        }
+    }
+    for c in ["duplicate_route_two_clusters", "duplicate_route_same_cluster"] {
+        for p in ["http_frontend", "https_frontend", "tcp_frontend", "udp_frontend"] {
+            rep.require(&format!("neighbour_place.{c}.{p}"));
+        }
+    }
+    for c in ["invalid_redirect_policy", "invalid_redirect_scheme", "invalid_header_position", "header_value_with_crlf", "http_frontend_without_hostname"] {
+        for p in ["http_frontend", "https_frontend"] {
+            rep.require(&format!("neighbour_place.{c}.{p}"));
+        }
+    }
+    for c in ["tcp_frontend_with_hostname", "tcp_frontend_with_path", "tcp_frontend_with_certificate", "frontend_without_listener_tcp"] {
+        for p in ["tcp_cluster", "udp_cluster"] {
+            rep.require(&format!("neighbour_place.{c}.{p}"));
+        }
+    }
+    rep.require("opt_present.tcp_cluster.health_check.uri");
     }
     let dir = ctx.root.join(format!("build/run-C20-{}", std::process::id()));
     if let Err(e) = std::fs::create_dir_all(&dir) {
